@@ -158,6 +158,13 @@ def robust(F, R):
         o = bi.ordering_of(i.args[1])
         R.ob('CONST-ARG', 'CONST-ARG::%s::increment_generation_counter-ordering' % fnkey(bi), o in core.ORD_REL, 'increment_generation_counter(%s); required release' % o, i.where, bi)
     R.floor('increment_generation_counter call sites', n_inc, 4)
+    # a cell is given back only by a compare_exchange that expects the owner that was judged (release: the caller's id; recover: the id the
+    # predicate saw): a blind store / swap frees the cell of whoever owns it by then (a live owner that re-acquired the slot in between)
+    for fn, nm in ((rel, 'release'), (rec, 'recover')):
+        blind = [a for a in fn.atomic_ops() if a.op in ('store', 'swap', 'fetch_and', 'fetch_or') and 'generation_counter' not in a.recv and 'cell' in a.recv]
+        cas_ = [a for a in atomics(fn, None, 'compare_exchange(_weak)?') if 'generation_counter' not in a.recv]
+        exp_ok = all('EMPTY' not in sym_nstr(sym(fn, a.site.args[1])) for a in cas_)
+        R.ob('WHO-MAY-CALL', 'WHO-MAY-CALL::%s::cell-freed-only-by-owner-CAS' % fnkey(fn), bool(cas_) and not blind and exp_ok, '%s(): the owner cell is reset by compare_exchange(<judged owner>, EMPTY) (%d site(s), expected value %s) and never by a blind store/swap (%d found)' % (nm, len(cas_), [sym_nstr(sym(fn, a.site.args[1]))[:40] for a in cas_], len(blind)), (cas_[0].site.where if cas_ else (blind[0].site.where if blind else fn.file)), fn)
     inc = F.fn(RU + 'increment_generation_counter')
     cs = atomics(inc, r'^self\.generation_counter$', 'compare_exchange(_weak)?')
     R.ob('CONST-ARG', 'CONST-ARG::%s::ordering-forwarded' % fnkey(inc), len(cs) == 1 and cs[0].ords[0] == 'param:2',
